@@ -45,11 +45,18 @@ def handle (j : Json) : R Json := do
     let sig ← (← arr j "sig").toList.mapM parseParam
     let ign := (← strList (← obj j "ign")).map chars
     let c ← parseCall j
+    -- a method with a `**kwargs` catch-all: Python's validity and binding with the extras
+    -- (`varkw` = its name; the decorator's loop visits it as a last parameter: `C16.catchall_param_inert`)
+    let varkwName := (j.getObjValAs? String "varkw").toOption
+    let varkw := varkwName.isSome
+    let sigLoop := match varkwName with
+      | some r => sig ++ [{ name := chars r, kwOnly := true, default := none }]
+      | none => sig
     pure (Json.mkObj [
-      ("valid", Json.bool (valid sig c)),
-      ("key", jstr (cacheKey enc sig ign c)),
-      ("binding", itemsJson (binding sig c)),
-      ("norm", itemsJson (normalise sig c))])
+      ("valid", Json.bool (if varkw then validKw sig c else valid sig c)),
+      ("key", jstr (cacheKey enc sigLoop ign c)),
+      ("binding", itemsJson (if varkw then bindingKw sig c else binding sig c)),
+      ("norm", itemsJson (normalise sigLoop c))])
   | "dumps" => do pure (Json.mkObj [("text", jstr (dumpsStd (← parseJVal (← obj j "v"))))])
   | "calls" =>
     let kind ← str j "kind"
@@ -61,6 +68,9 @@ def handle (j : Json) : R Json := do
       let sig ← (← arr cj "sig").toList.mapM parseParam
       let ign := (← strList (← obj cj "ign")).map chars
       let c ← parseCall cj
+      let sig := match (cj.getObjValAs? String "varkw").toOption with
+        | some r => sig ++ [{ name := chars r, kwOnly := true, default := none }]
+        | none => sig
       let method := chars (← str cj "method")
       let version := (opt cj "version").bind (fun v => v.getStr?.toOption) |>.map chars
       let ctl : Ctl := { forceCache := (← bool cj "force"), onlyCache := (← bool cj "only"), store := (← parseSV cj) }
